@@ -51,7 +51,10 @@ def strategy(tier):
             m = draw(S.event_model())
             su = draw(S.stochastic_setup(m))
             return {"part": "A", "model": m, "setup": su, "seeds": [s1, s2], "iters": draw(st.integers(1, 4)),
-                    "exact": draw(st.booleans()), "grid_n": draw(st.sampled_from([0, 0, 5]))}
+                    "exact": draw(st.booleans()), "grid_n": draw(st.sampled_from([0, 0, 5])),
+                    # the simulated object is a copy.deepcopy of the configured model (what the package's own
+                    # profile-likelihood code does with models)
+                    "deepcopy": draw(st.integers(0, 3)) == 0}
         m = draw(S.ode_model(allow_time=False, families=("chain", "epidemic")))
         su = draw(S.ode_setup(m, n_times=(2, 8), t_max=4.0))
         spec = []
@@ -113,6 +116,10 @@ def oracle(case, rec):
     if case["part"] == "A":
         exact = case["exact"]
         model, order = stoch.prepare(m, su)
+        if case.get("deepcopy"):
+            import copy
+            model = call("C16/deepcopy", case, copy.deepcopy, model)
+            rec.label("model:deep-copy")
         key = "C16/" + ("exact" if exact else "tau")
         t_end = su["t0"] + su["horizon"]
         targ = np.linspace(su["t0"], t_end, case["grid_n"]) if case["grid_n"] else t_end
